@@ -246,3 +246,46 @@ def tarjan(repo):
     res.samples = [f"{outer.name}/{inner.name}: index={index_t} lowlink={low_t} stack={stack} on-stack={onstack}"]
     res.analysed = [DC]
     return res
+
+
+def aliasdeps(repo):
+    """R-ALIASDEPS (C06/C15): the members of an anonymous `bits` are exposed as alias fields `let y = anon.y` whose
+    existence is `$present(anon) && $present(anon.y)`.  Whether `anon.y` is present can depend on a sibling
+    member `z` — which at the level of the enclosing structure is only reachable through *its* alias.  The ordering
+    pass records a field reference as a dependency on its first component only, so `y` is ordered after `anon`
+    but not after `z`; the text writer then emits `y` before `z` and the text cannot be read back.
+
+    Decided: whether the recorder looks at anything but `path[0]` while such two-component aliases are synthesised.
+    If it does, the rule makes no claim."""
+    res = RuleResult("R-ALIASDEPS")
+    m = repo.mod(DC)
+    rec = None
+    for f in m.top_funcs():
+        ps = [a.arg for a in f.node.args.args]
+        if len(ps) >= 2 and "dependencies" in ps:
+            for n in walk_no_nested_funcs(f.node):
+                if isinstance(n, ast.Subscript) and isinstance(n.value, ast.Attribute) and n.value.attr == "path":
+                    rec = f
+    if rec is None:
+        raise AnalysisError("dependency_checker: the function recording field-reference dependencies was not found")
+    subs = [n for n in walk_no_nested_funcs(rec.node) if isinstance(n, ast.Subscript) and isinstance(n.value, ast.Attribute)
+            and n.value.attr == "path"]
+    loops = [n for n in walk_no_nested_funcs(rec.node) if isinstance(n, (ast.For, ast.comprehension)) and "path" in ast.unparse(n.iter)]
+    first_only = bool(subs) and not loops and all(isinstance(s.slice, ast.Constant) and s.slice.value == 0 for s in subs)
+    syn = repo.mod("compiler/front_end/synthetics.py")
+    two = False
+    for f in syn.top_funcs():
+        for n in walk_no_nested_funcs(f.node):
+            if isinstance(n, ast.Call) and (call_name(n) or "").endswith("FieldReference"):
+                for k in n.keywords:
+                    if k.arg == "path" and isinstance(k.value, ast.List) and len(k.value.elts) == 2:
+                        two = True
+    res.instances += 2
+    if first_only and two:
+        res.add(f"{DC}|{rec.name}|first-component-only", f"{rec.name} records `reference.path[0]` only, while synthetics.py creates alias "
+                "fields reading `anonymous_bits.member` (two components) whose presence depends on the member's own condition: "
+                "an alias whose member is conditional on a sibling member is not ordered after that sibling's alias, so "
+                "fields_in_dependency_order (Ok(), text output) lists it first", DC, rec.line, rec.name)
+    res.samples = [f"{rec.name}: first component only = {first_only}; two-component aliases synthesised = {two}"]
+    res.analysed = [DC, "compiler/front_end/synthetics.py"]
+    return res
